@@ -296,8 +296,9 @@ func c07refuse(c *core.Ctx) {
 }
 
 // c07walk: the allOf compiler walks the whole tree.
-func c07walk(c *core.Ctx) {
-	const R = "C07.walk"
+func c07walk(c *core.Ctx) { c07walkAs(c, "C07.walk") }
+
+func c07walkAs(c *core.Ctx, R string) {
 	c.Rule(R, "allOfConstraintCompiler.processNode reaches its recursion into the children on every path, in particular after the node's own allOf was expanded (no early return in the allOf branch): nested objects with their own allOf are expanded too; and processSchema/processType feed every registered type")
 	c.Floor(R, 1)
 	f := c.P.Method("notations/jschema/loader", "allOfConstraintCompiler", "processNode")
